@@ -201,6 +201,8 @@ def run_root(E, body, contract=None):
                     ms.exempt = True
         res = E.exec_fn(st, body, list(args), gs)
         for kind, s, v in res:
+            if contract:
+                s.notes = s.notes + (('contract', contract),)
             E.chain = [body.id]
             E.cur_span = body.span
             E.in_unwind = (kind == 'unwind')
